@@ -139,13 +139,74 @@ def run_saturated():
         s.cleanup()
 
 
+def run_inherited():
+    """two workers share a listening socket handed over in blocking mode (fd://N): a keep-alive connection is parked on
+    each; another client connects (both workers wake, one gets it); a request on every parked connection is answered,
+    and afterwards the parked connections are closed when the keep-alive time has passed"""
+    ka = 4
+    s = rp.Server("gthread", workers=2, threads=2, bind="fd", args=["--keep-alive", str(ka), "--timeout", "30"], name="c13")
+    parked = {}
+    extra = []
+    try:
+        s.start()
+        s.wait_booted(2)
+        for _ in range(24):
+            if len(parked) == 2:
+                break
+            c = s.connect(timeout=8)
+            try:
+                st, body, info = s.get("/pid", sock=c, keepalive=True, timeout=5)
+                pid = rp.parse_ident(body)[0]
+            except OSError:
+                pid = None
+            if pid and pid not in parked:
+                parked[pid] = c
+            else:
+                c.close()
+                time.sleep(0.1)
+        if len(parked) < 2:
+            raise RuntimeError("could not park a connection on each of the two workers: %s" % list(parked))
+        for _ in range(3):
+            x = s.connect(timeout=5)                    # wakes both workers; one of them accepts it
+            extra.append(x)
+            time.sleep(0.3)
+        ev = []
+        t_last = {}
+        for k, (pid, c) in enumerate(sorted(parked.items())):
+            try:
+                st, body, info = s.get("/pid", sock=c, keepalive=True, timeout=3)
+                ok = st == 200 and info["complete"]
+            except OSError:
+                ok = False
+            t_last[pid] = time.time()
+            ev.append({"e": "req", "c": k + 1, "nseg": 1, "nth": 2, "inflight": 0, "answered": bool(ok)})
+        # keep-alive expiry of the parked connections, on the wall clock
+        for k, (pid, c) in enumerate(sorted(parked.items())):
+            c.settimeout(ka + 1 + SLACK / 1000.0 + 1.5)
+            try:
+                d = c.recv(10)
+                after = int((time.time() - t_last[pid]) * 1000) if d == b"" else -1
+            except OSError:
+                after = -1
+            ev.append({"e": "idle", "c": k + 1, "after_ms": after})
+        return {"threads": 2, "ka_ms": ka * 1000, "slack_ms": SLACK, "ev": ev}, \
+            {"threads": 2, "busy": 0, "plan": "inherited", "log": s.errlog()[-300:]}
+    finally:
+        for c in list(parked.values()) + extra:
+            try:
+                c.close()
+            except OSError:
+                pass
+        s.cleanup()
+
+
 def real_side(ctx):
     from props.reload_real import _parallel
     plan = [(2, 1, [1, 2, 3]), (1, 0, [2, 1, 4]), (3, 2, [3, 3])] if ctx.quick else \
         [(t, b, p) for t in (1, 2, 4) for b in range(0, t) for p in ([1, 2, 3], [2, 1, 4], [3, 3], [1, 1, 8])]
-    plan = plan + [("pipelined", 2, None), ("saturated", 2, None)] + ([] if ctx.quick else [("pipelined", 1, None)])
+    plan = plan + [("pipelined", 2, None), ("saturated", 2, None), ("inherited", 2, None)] + ([] if ctx.quick else [("pipelined", 1, None)])
     results = _parallel(plan, lambda a, i: run_pipelined(a[1]) if a[0] == "pipelined" else run_saturated() if a[0] == "saturated"
-                        else run_real(a[0], a[1], a[2]), par=8)
+                        else run_inherited() if a[0] == "inherited" else run_real(a[0], a[1], a[2]), par=9)
     traces = [r[0] for r in results]
     metas = [r[1] for r in results]
     verdicts, stats = tlc.validate_batch("GThreadRealTrace", "GThreadRealTrace.cfg", traces, name="GThreadRealTrace_C13")
@@ -158,8 +219,8 @@ def real_side(ctx):
         where = "nth=%s,nseg=%s" % (("1" if e.get("nth") == 1 else ">1"), ("1" if e.get("nseg") == 1 else ">1")) if e["e"] == "req" else "idle"
         if e["e"] == "req" and e.get("nseg") == 0:
             where = "pipelined"
-        if m.get("plan") == "saturated":
-            where = "saturated"
+        if m.get("plan") in ("saturated", "inherited"):
+            where = m["plan"]
         ctx.violation("C13/%s/real/%s" % (v, where), "%s: %s event=%s" % (v, {k: m[k] for k in m if k != "log"}, e),
                       {"trace": t, "meta": m})
     ctx.sample({"real": metas[0]["plan"], "events": traces[0]["ev"]})
